@@ -187,7 +187,7 @@ def sweep(prop: str, P, ctx) -> Dict:
     if os.path.isdir(sd):
         for s in sorted(os.listdir(sd)):
             mp = os.path.join(sd, s, "meta.json")
-            if os.path.exists(mp) and json.load(open(mp)).get("breaks_property") == prop:
+            if os.path.exists(mp) and (json.load(open(mp)).get("clause_owner") or json.load(open(mp)).get("breaks_property")) == prop:
                 jobs.append(("patch", f"seeded/{s}", prop, repo, os.path.join(sd, s, "patch.diff")))
     rd = os.path.join(VERIF, "refactors")
     if os.path.isdir(rd):
